@@ -83,15 +83,15 @@ def plan(prop, tier):
                  [ops("chain", EXACT, 120 if q else 1000, 3, 90), ops("chain3", EXACT, 40 if q else 500, 2, 60),
                   ops("chain", "frames,cxabut,cxsub,frames,rect", 500 if q else 5000, 3, 90), ops("chain3", "frames,cxabut", 120 if q else 1200, 3, 70)])],
         "C12": [("purity", {"C12"}, "any", "release",
-                 [ops("pure", ALLF, 60 if q else 500, 3, 120), ops("repr", EXACT, 20 if q else 100, 3, 90),
+                 [("fixtures",), ops("pure", ALLF, 60 if q else 500, 3, 120), ops("pure", "latraw", 80 if q else 800, 3, 120), ops("repr", EXACT, 20 if q else 100, 3, 90),
                   ops("history", "cx,cxmix,cxshift,aff-cx", 8 if q else 60, 4, 200)])],
         "C03": [("returns-release", {"C03"}, "any", "release",
-                 [corpus("ulp.ndjson"), corpus("fixed_findings.ndjson"), corpus("hand.ndjson"), corpus("fan_f32.ndjson"),
+                 [("fixtures",), ("rawcorpus", "ttouch.in"), corpus("ulp.ndjson"), corpus("fixed_findings.ndjson"), corpus("hand.ndjson"), corpus("fan_f32.ndjson"),
                   ops("single", ALLF, 400 if q else 4000, 3 if q else 5, 140 if q else 240),
                   ops("deg", EXACT, 60 if q else 400), ops("chain", EXACT, 40 if q else 300, 3, 90),
                   tri(2, 840, 5 if q else 1, 3)]),
                 ("returns-debug-assertions", {"C03"}, "any", "dbg",
-                 [corpus("fixed_findings.ndjson"), corpus("hand.ndjson"),
+                 [("fixtures",), ("rawcorpus", "ttouch.in"), corpus("fixed_findings.ndjson"), corpus("hand.ndjson"),
                   ops("single", ALLF, 400 if q else 4000, 3 if q else 5, 140 if q else 240),
                   ops("deg", EXACT, 60 if q else 400), ops("far", EXACT, 40 if q else 300),
                   tri(2, 840, 5 if q else 1, 4)])],
@@ -122,6 +122,21 @@ def record_step(prop, step_idx, label, profile, batches, seed, workdir):
                 k = 0
                 for line in f:
                     g.write(line)
+                    k += 1
+            os.remove(tmp)
+            sid0 += k
+        elif b[0] in ("fixtures", "rawcorpus"):
+            fx = os.path.join(workdir, "fixtures.in") if b[0] == "fixtures" else os.path.join(vlib.CORPUS, b[1])
+            if b[0] == "fixtures":
+                vlib.fixtures_file(fx)
+            tmp = os.path.join(workdir, "fx.tmp")
+            vlib.vh(["rec-fixtures", "--file", fx], tmp, profile=profile)
+            with open(tmp) as f, open(path, "a") as g:
+                k = 0
+                for line in f:
+                    d = json.loads(line)
+                    d["sid"] = sid0 + k
+                    g.write(json.dumps(d, separators=(",", ":")) + "\n")
                     k += 1
             os.remove(tmp)
             sid0 += k
@@ -230,6 +245,7 @@ def run(prop, tier, seed, t0):
         os.makedirs(wd, exist_ok=True)
         if tier == "quick":
             scs = [("bool:comb:int", 120000, 1024), ("bool:needles:int", 120000, 1024), ("bool:needles:diff", 100000, 1024), ("bool:comb_subject:diff", 20000, 8192), ("bool:steps:union", 100000, 1024), ("bool:steps:xor", 60000, 1024),
+                   ("bool:comb:int", 30000, 256), ("bool:needles:int", 30000, 256), ("bool:comb:diff", 30000, 192),
                    ("bool:grid:union", 2500, 8192), ("bool:grid:xor", 2500, 2048), ("bool:stair:int", 40000, 8192), ("bool:stair:union", 20000, 2048)]
         else:
             scs = [("bool:comb:int", 500000, 8192), ("bool:comb:diff", 250000, 2048), ("bool:needles:int", 300000, 8192), ("bool:needles:diff", 150000, 2048),
